@@ -46,7 +46,15 @@ cd "$(dirname "$0")"
   echo "clauses pin the name as written), C16_m8 (falling through to a later extension after a load failure: the first existing"
   echo "candidate decides), C18_m8 and C18_m9 (SetOrLet and ParseInto had no contract). The same agents reported five"
   echo "pre-existing violations, all confirmed and repaired (I.6). First-exposure detection by the property's own check was"
-  echo "thus 43/60, 16/20, 17/20, 33/40 and 22/40 over the five rounds; after strengthening, all 180 are reported."
+  echo "thus 43/60, 16/20, 17/20, 33/40 and 22/40 over the first five rounds. A sixth round (\`_m10\`, \`_m11\`, agents pointed"
+  echo "at helpers, constructors and option setters): 24 of 40 reported at once. Seven of the 16 misses were missing property"
+  echo "tags (the obligation existed and failed, but under another property: C01_m10, C05_m11, C11_m11, C17_m11, C18_m11,"
+  echo "C20_m10; C11_m10 was first reported by an unrelated obligation timing out under load, then missed, then tagged); the"
+  echo "others led to new clauses: the loader's bytes reach the parser unmodified (C03_m10), integer indexes are used as they"
+  echo "are (C06_m10), every named member is first looked up as a method (C06_m11), includeIfExists and include ask the Set on"
+  echo "every call (C09_m11, C16_m11), parseCatch keeps the error variable (C13_m11), ParseInto parses every argument (C14_m11),"
+  echo "Resolve is identifier lookup (C18_m10), the OS loader answers from exactly one os.Stat (C19_m11). After strengthening,"
+  echo "all 220 are reported by the check of their own property."
   echo
   echo "# Part II — the round-0 plan (kept for reference; Part I wins where they differ)"
   echo
